@@ -150,6 +150,21 @@ def gen_layout(rng, desc, for_cli=False, ambiguous=None, d9=None, badtop=False):
     if badtop or rng.random() < 0.35:
         for path in rng.sample(BADTOP_NAMES, rng.choice([1, 1, 2])):
             extras.append({"path": path, "kind": "badtop", "variant": rng.choice(sorted(BADTOPS))})
+    # OTHER files (other paths, same contents) describing a species that is given explicitly with --mol: a copy of
+    # its start topology and/or of its end files kept in a force-field folder.  Discovery must not come back with
+    # that species ("never re-adds species given explicitly" — seed C20-3: only the explicit files themselves are
+    # filtered out and the scratch System is no longer seeded with the explicit start topologies)
+    for k, ls in enumerate(species):
+        if ls["explicit"] and rng.random() < 0.6:
+            which = rng.choice(["start", "start+end", "all"])
+            extras.append({"path": f"ffcopies/{desc['species'][k]['name']}_start_copy.itp", "kind": "explicit-copy",
+                           "of": k, "role": "cg"})
+            if which in ("start+end", "all"):
+                extras.append({"path": f"ffcopies/{desc['species'][k]['name']}_end_copy.itp", "kind": "explicit-copy",
+                               "of": k, "role": "aaitp"})
+            if which == "all":
+                extras.append({"path": f"ffcopies/{desc['species'][k]['name']}_end_copy.gro", "kind": "explicit-copy",
+                               "of": k, "role": "aagro"})
     seen = set()
     extras = [e for e in extras if not (e["path"] in seen or seen.add(e["path"]))]
     layout = {"style": style, "species": species, "foreign": foreign, "extras": extras,
@@ -242,6 +257,11 @@ def materialize(desc, layout, root):
             open(ap(e["path"]), "w").write("[ moleculetype ]\nBRK 1\n\n[ atoms ]\n1 C one RES A 1 0.0 12.0\n")
         elif e["kind"] == "badtop":
             open(ap(e["path"]), "w").write(BADTOPS[e.get("variant", "ff")])
+        elif e["kind"] == "explicit-copy":
+            sp = desc["species"][e["of"]]
+            write_species(sp, {"cg": e["path"] if e["role"] == "cg" else None,
+                               "aaitp": e["path"] if e["role"] == "aaitp" else None,
+                               "aagro": e["path"] if e["role"] == "aagro" else None})
     dup = layout.get("dup")
     if dup:
         sp, ls = desc["species"][dup["of"]], layout["species"][dup["of"]]
@@ -263,7 +283,10 @@ def auto_list(layout):
                 out.append(ls["files"][role])
     for fs in layout["foreign"]:
         out += [fs["files"]["cg"], fs["files"]["aaitp"], fs["files"]["aagro"]]
-    out += [e["path"] for e in layout["extras"]]
+    # copies of an explicit species' files count only while that species IS explicit (later layout edits may
+    # have withdrawn the --mol triple; the copies would then be plain duplicate candidates = ambiguous directory)
+    out += [e["path"] for e in layout["extras"]
+            if e["kind"] != "explicit-copy" or layout["species"][e["of"]]["explicit"]]
     if layout["sys_in_auto"]:
         out.append(layout["sys"])
     if layout.get("dup"):
